@@ -44,6 +44,12 @@ fn gen_mapfile(t: &mut Tape, fmt: Fmt, game: &str) -> String {
     for k in table.sigs.keys() { if t.chance(1, 6) { s.push_str(&format!("{} name{}\n", k, k)); } }
     if t.chance(1, 3) { s.push_str("!difficulty_flags\n0 E\n1 N-\n2 H+\n"); }
     if t.chance(1, 3) { s.push_str("!enum(name=\"color\")\n0 Red\n1 Blue\n!ins_signatures\n900 S(enum=\"color\")\n"); }
+    // enum sections that touch the built-in enums and consts (bool's true/false, the automatic sprite / script / sub enums)
+    for _ in 0..t.below(3) {
+        if !t.chance(1, 3) { continue; }
+        s.push_str(&format!("!enum(name=\"{}\")\n", *t.pick(&["bool", "color", "AnmSprite", "AnmScript", "EclSub", "MsgScript", "BitmapColorFormat", "kind"])));
+        for _ in 0..(1 + t.below(3)) { s.push_str(&format!("{} {}\n", t.below(7), *t.pick(&["true", "false", "Red", "Blue", "sprite0", "script0", "Sub0", "PI", "NAN", "ins_1", "x"]))); }
+    }
     s
 }
 
@@ -52,7 +58,7 @@ const MAP_VOCAB: &[&str] = &[
     "ot", "to", "oo", "SSSSSSSSSSSSSSSSSSSSSSSSSSSSSSSSSSSSSSSSSSSSSSSSSSSSSSSSSSSSSSSSSSSSSSSS", "z(bs=4)S", "p(bs=4)", "(", ")", "S(", "S()", "S(bs=4)", "z(bs=-1)", "z(bs=99999999999)", "z(len=0)", "m(mask=1)", "\"\"",
     "Jmp()", "CountJmp(op=\">\")", "CountJmp(op=\"!=\")", "InterruptLabel()", "AssignOp(op=\"=\";type=\"int\")", "AssignOp(op=\"=\";type=\"string\")", "BinOp(op=\"+\";type=\"int\")", "BinOp(op=\"+\";type=\"float\")", "BinOp(op=\"<<<\";type=\"int\")", "UnOp(op=\"sin\";type=\"float\")", "UnOp(op=\"sin\";type=\"int\")", "CondJmp(op=\"==\";type=\"int\")", "CondJmp2A(type=\"int\")", "CondJmp2B(op=\"==\")", "DedicatedCmp()", "Nonsense()", "Jmp", "Jmp(",
     "!ins_signatures", "!ins_intrinsics", "!gvar_types", "!gvar_names", "!ins_names", "!ins_rets", "!difficulty_flags", "!timeline_ins_signatures", "!timeline_ins_names", "!enum(name=\"x\")", "!enum(name=\"bool\")", "!enum", "!anmmap", "!eclmap", "!stdmap", "!msgmap", "!nonsense", "!",
-    "0", "1", "-1", "65535", "65536", "99999999999", "10000", "-10001", "$", "%", "?", "E", "N-", "H+", "X+-", "EE", "if", "int", "ins_1", "REG", "name", "a b", "#", "# comment", "\u{feff}", "\0", "é",
+    "0", "1", "-1", "65535", "65536", "99999999999", "10000", "-10001", "$", "%", "?", "E", "N-", "H+", "X+-", "EE", "if", "int", "ins_1", "REG", "name", "a b", "#", "# comment", "true", "false", "PI", "INF", "NAN", "sprite0", "script0", "\u{feff}", "\0", "é",
 ];
 
 const SIG_PIECES: &[&str] = &["S", "s", "U", "u", "C", "c", "b", "f", "n", "N", "E", "o", "t", "_", "-", "z(bs=4)", "z(bs=1)", "z(bs=0)", "z(len=34)", "z(len=0)", "m(bs=4;mask=0x77,7,16)", "m(len=48;mask=1,2,3;furibug)", "p(bs=4)", "S(imm)", "S(hex)", "f(imm)", "S(enum=\"bool\")", "S(enum=\"nope\")", "s(arg0)", "S(arg0)", "S(imm;hex)", "z", "m", "S(", ")", "S(bs=4)", "z(bs=-1)", "z(bs=99999999999)", "m(mask=1)", "T", "X"];
